@@ -1511,6 +1511,12 @@ def call_method(I: Any, recv: Term, name: str, args: List[Term], kwargs: Dict[st
 def int_to_bytes(I: Any, v: Term, args: List[Term], kwargs: Dict[str, Term], st: Any, ctx: Any, node: ast.AST) -> Term:
     n = as_const_int(args[0] if args else kwargs.get("length", c(1)))
     order = args[1] if len(args) > 1 else kwargs.get("byteorder", c("big"))
+    if not isinstance(n, int) and is_c(order) and order[1] in ("little", "big") and (args or "length" in kwargs):
+        nt = args[0] if args else kwargs["length"]
+        if is_int_term(nt) or (isinstance(nt, tuple) and nt and nt[0] in ("app", "lin")):
+            # a length that depends on the value (e.g. (x.bit_length() + 7) // 8): a byte string of VARIABLE width -
+            # kept as a precise term, so that rules comparing with a fixed-width reference can see the difference
+            return ("seq", "raw", (("txt", ("app", "to_bytes", v, nt, order)),))
     if not isinstance(n, int) or not is_c(order):
         return top("to_bytes with non-constant arguments")
     fmt = {1: "B", 2: "H", 4: "I", 8: "Q"}.get(n)
